@@ -681,7 +681,7 @@ func init() {
 		})(c)
 		// chain workspace: edits x taint; a taint is consumed by whatever execution follows it (also one caused by an edit),
 		// afterwards a no-op build executes nothing
-		chainCheck("C02", []string{"C02:", "C13:dependant-or-clean-target-executed"}, 5, 6, func(e *chainEngine, thorough bool) {
+		chainCheck("C02", []string{"C02:", "C13:dependant-or-clean-target-executed", "C13:taint-not-consumed-by-successful-execution"}, 5, 6, func(e *chainEngine, thorough bool) {
 			e.ops = []chainOp{opEditFirst, opEditY, opTaintY, opBuild}
 		})(c)
 		if !c.Thorough {
